@@ -69,6 +69,13 @@ PROOFS += [
 ]
 
 import replay_lib  # noqa: E402
+sys.path.insert(0, os.path.join(os.path.dirname(os.path.abspath(__file__)), '..', 'shared'))
+import outtext_proofs  # noqa: E402
+PROOFS.append(outtext_proofs.iteration_proof())   # sp_before_nl_cont is applied in output_text()
+
+
+def static_facts(repo):
+    return outtext_proofs.static_facts(repo)
 
 
 def _replay(repo, failure, workroot):
@@ -90,3 +97,17 @@ def _replay(repo, failure, workroot):
 
 
 PROOFS[0].replay = _replay
+
+EXPLANATION = ('Kernel of C19. do_space() - the real 3400-line decision function - is executed once symbolically with every chunk attribute unconstrained and every '
+               'option value anywhere in its documented range; for each of the IARF options the contract has one clause "if the last rule logged is this option then '
+               'the value returned is this option\'s configured value" (plus, only for the rules the property\'s exception clause covers, value|ADD or REMOVE->IGNORE). '
+               'ensure_force_space / space_needed / space_col_align turn the decision into a number of columns exactly as the property says (Remove none, Force one '
+               '(max(1,min_sp)), Add at least one, Ignore as in the input; a forced space overrides Remove). The one spacing option applied outside space.cpp, '
+               'sp_before_nl_cont, is checked where it is applied: in one iteration of output_text().')
+K = ['K1 do_space: rule logged <-> option value returned, for all 400+ IARF options at once; result always one of the four values; min_sp assigned',
+     'K2 ensure_force_space, do_space_ensured, space_needed, space_col_align: meaning of the four values in columns',
+     'K4 output_text (one iteration): the column of a backslash-newline obeys sp_before_nl_cont (Remove: none, Force: exactly one, Add: at least one, Ignore: the original spacing)']
+G = ['space_text() applies the decision to the columns of the following chunk (350-line loop): NOT under contract; the log really prints the recorded rule (log_rule macro replaced by a ghost recorder)',
+     'chunk navigation inside do_space (GetNext/GetPrev/...) returns an arbitrary chunk: over-approximation; termination of the two chunk-list walks is not proved',
+     'later passes (align, width) do not change intra-line gaps - the property excludes them',
+     'known finding: rule sp_bool with pos_bool != ignore (see known_findings.txt)']
